@@ -1315,13 +1315,24 @@ func DescribeSchema() *ScopeSchema {
 	return schemaSchema
 }
 
-// UnserializeScope unserializes a scope definition from raw data.
-func UnserializeScope(data any) (*ScopeSchema, error) {
+// UnserializeScope unserializes a scope definition from raw data and links the references within the scope itself.
+// The data typically comes from outside: inconsistencies that make linking panic (references to objects that do not
+// exist, one-of members that contradict the inlining flag, nested scopes without their root object) are reported as
+// errors. Apply further namespaces with ApplyNamespace and call ValidateReferences before using the scope.
+func UnserializeScope(data any) (result *ScopeSchema, err error) {
+	defer func() {
+		if r := recover(); r != nil {
+			result = nil
+			err = fmt.Errorf("invalid scope: %v", r)
+		}
+	}()
 	s, err := scopeScopeSchema.Unserialize(data)
 	if err != nil {
 		return nil, err
 	}
-	return s.(*ScopeSchema), nil
+	result = s.(*ScopeSchema)
+	result.ApplySelf()
+	return result, nil
 }
 
 // UnserializeSchema unserializes an entire schema definition from raw data.
